@@ -122,10 +122,6 @@ theorem Formula.print_toList : ∀ f : Formula, f.print.toList = Formula.printL 
 
 /-! ## names that cannot be mistaken for a prefix keyword -/
 
-/-- a constant / predicate symbol other than the three prefix keywords -/
-def SafeName (l : List Char) : Prop :=
-  SymName l ∧ l ≠ ['n', 'o', 't'] ∧ l ≠ ['f', 'o', 'r', 'a', 'l', 'l'] ∧ l ≠ ['e', 'x', 'i', 's', 't', 's']
-
 /-- a keyword matched at the start of `name ++ X` is a prefix of the name -/
 theorem stripPrefix_name : ∀ (kw l X r : List Char), (∀ x ∈ kw, isIdChar x = true) → NoId X →
     stripPrefix kw (l ++ X) = some r → ∃ l', l = kw ++ l' ∧ r = l' ++ X := by
@@ -173,30 +169,55 @@ theorem keyword_miss (kw l X : List Char) (hk : ∀ x ∈ kw, isIdChar x = true)
       rw [e2]
       exact notIdNext_cons_id _ (hl c (by rw [e1]; simp))
 
-theorem prefixL_of_misses (cs : List Char)
-    (h1 : stripPrefix "forall".toList cs = none ∨ ∃ r, stripPrefix "forall".toList cs = some r ∧ notIdNext r = false)
-    (h2 : stripPrefix "exists".toList cs = none ∨ ∃ r, stripPrefix "exists".toList cs = some r ∧ notIdNext r = false)
-    (h3 : stripPrefix "not".toList cs = none ∨ ∃ r, stripPrefix "not".toList cs = some r ∧ notIdNext r = false) :
+theorem notWordNext_of_notIdNext {r : List Char} (h : notIdNext r = false) : notWordNext r = false := by
+  cases r with
+  | nil => simp [notIdNext] at h
+  | cons c r' =>
+    simp only [notIdNext, Bool.not_eq_false'] at h
+    simp [notWordNext, h]
+
+theorem variablesL_none (n : Nat) (r : List Char) (h : lexVariable (skip r) = none) : variablesL n r = ([], r) := by
+  cases n with
+  | zero => rfl
+  | succ n => simp [variablesL, h]
+
+/-- a quantifier keyword is not matched, or continues as an identifier, or is followed by no variable -/
+def QuantMiss (kw : List Char) (cs : List Char) : Prop :=
+  stripPrefix kw cs = none ∨ ∃ r, stripPrefix kw cs = some r ∧ (notIdNext r = false ∨ ∀ n, variablesL n r = ([], r))
+
+theorem prefixL_of_misses (cs : List Char) (h1 : QuantMiss "forall".toList cs) (h2 : QuantMiss "exists".toList cs)
+    (h3 : stripPrefix "not".toList cs = none ∨ ∃ r, stripPrefix "not".toList cs = some r ∧ notWordNext r = false) :
     prefixL cs = none := by
   unfold prefixL
-  rcases h1 with h1 | ⟨r1, h1, n1⟩
-  · rcases h2 with h2 | ⟨r2, h2, n2⟩
-    · rcases h3 with h3 | ⟨r3, h3, n3⟩
-      · simp only [h1, h2, h3]
-      · simp only [h1, h2, h3, n3, Bool.false_eq_true, if_false]
-    · rcases h3 with h3 | ⟨r3, h3, n3⟩
-      · simp only [h1, h2, n2, h3, Bool.false_eq_true, if_false]
-      · simp only [h1, h2, n2, h3, n3, Bool.false_eq_true, if_false]
-  · rcases h3 with h3 | ⟨r3, h3, n3⟩
-    · simp only [h1, n1, h3, Bool.false_eq_true, if_false]
-    · simp only [h1, n1, h3, n3, Bool.false_eq_true, if_false]
+  rcases h1 with h1 | ⟨r1, h1, n1 | n1⟩ <;> rcases h2 with h2 | ⟨r2, h2, n2 | n2⟩ <;> rcases h3 with h3 | ⟨r3, h3, n3⟩ <;>
+    simp only [*, Bool.false_eq_true, if_false, ite_self]
 
-theorem prefixL_name (l X : List Char) (h : SafeName l) (hX : NoId X) : prefixL (l ++ X) = none := by
-  obtain ⟨hs, n1, n2, n3⟩ := h
-  exact prefixL_of_misses _
-    (keyword_miss "forall".toList l X (by decide) hs.idChars n2 hX)
-    (keyword_miss "exists".toList l X (by decide) hs.idChars n3 hX)
-    (keyword_miss "not".toList l X (by decide) hs.idChars n1 hX)
+/-- a name at the start of the text is not taken for a prefix keyword: it is none of them, or it is
+    `forall` / `exists` followed by no variable, or it is `not` followed by `$` -/
+theorem prefixL_name (l X : List Char) (hs : SymName l) (hnot : l ≠ ['n', 'o', 't'] ∨ ∃ r, X = '$' :: r)
+    (hX : NoId X) (hv : lexVariable (skip X) = none) : prefixL (l ++ X) = none := by
+  have quant : ∀ kw : List Char, (∀ x ∈ kw, isIdChar x = true) → QuantMiss kw (l ++ X) := by
+    intro kw hk
+    by_cases e : l = kw
+    · right
+      refine ⟨X, ?_, Or.inr (fun n => variablesL_none n X hv)⟩
+      subst e
+      clear hs hnot
+      induction l with
+      | nil => rfl
+      | cons a l ih => simp [stripPrefix, ih (fun x hx => hk x (List.mem_cons_of_mem _ hx))]
+    · rcases keyword_miss kw l X hk hs.idChars e hX with h | ⟨r, h1, h2⟩
+      · exact Or.inl h
+      · exact Or.inr ⟨r, h1, Or.inl h2⟩
+  refine prefixL_of_misses _ (quant _ (by decide)) (quant _ (by decide)) ?_
+  by_cases e : l = ['n', 'o', 't']
+  · rcases hnot with hnot | ⟨r, rfl⟩
+    · exact absurd e hnot
+    · right
+      refine ⟨'$' :: r, by subst e; rfl, by simp [notWordNext, isIdChar]⟩
+  · rcases keyword_miss "not".toList l X (by decide) hs.idChars e hX with h | ⟨r, h1, h2⟩
+    · exact Or.inl h
+    · exact Or.inr ⟨r, h1, notWordNext_of_notIdNext h2⟩
 
 /-- text that does not start with one of `f`, `e`, `n` has no prefix operator in front -/
 theorem prefixL_head (c : Char) (r : List Char) (h1 : c ≠ 'f') (h2 : c ≠ 'e') (h3 : c ≠ 'n') : prefixL (c :: r) = none :=
@@ -204,7 +225,7 @@ theorem prefixL_head (c : Char) (r : List Char) (h1 : c ≠ 'f') (h2 : c ≠ 'e'
     (Or.inl (stripPrefix_head_ne _ _ (Ne.symm h3)))
 
 theorem prefixL_not (X : List Char) : prefixL ('n' :: 'o' :: 't' :: ' ' :: X) = some (.pneg, ' ' :: X) := by
-  simp [prefixL, stripPrefix, notIdNext, isIdChar]
+  simp [prefixL, stripPrefix, notWordNext, isIdChar]
 
 /-! ## variable lists -/
 
